@@ -21,6 +21,17 @@ def histories():
         "drop_file 3",
         "seek 1 start 600",
         "read 1 900",
+        # forward seeks from inside the file, over one and over several clusters, relative to start / current / end
+        "seek 1 start 2590",
+        "seek 1 start 10",
+        "seek 1 cur 1500",
+        "seek 1 start 520",
+        "seek 1 end -5",
+        "seek 1 start 700",
+        "seek 1 cur 600",
+        "read 1 100",
+        "seek 1 start 600",
+        "read 1 900",
         "list 0",
         "list 2",
         "stats",
